@@ -598,10 +598,20 @@ func genClusterByz(t *testing.T, r *rand.Rand, h *History) {
 			default: // a Byzantine commit / prepare pair completing somebody's quorum for the value they already prepared
 				m = M{T: 3, Src: byz(), Rnd: rd, Val: vals[r.Intn(2)]}
 			}
-			// to one honest member or to several
+			// to one honest member or to several; justified messages also in other orders of the justification list
 			k := 1 + r.Intn(len(honIDs))
 			for _, i := range r.Perm(len(honIDs))[:k] {
 				pool = append(pool, flight{to: honIDs[i], m: m})
+			}
+			if len(m.J) > 1 {
+				h.Stats["byz:permuted-justifications"]++
+				pms := permsOf(r, m)
+				for _, x := range r.Perm(len(pms)) {
+					if x >= 4 && len(pms) > 6 { // a few of them, each to one honest member
+						continue
+					}
+					pool = append(pool, flight{to: honIDs[r.Intn(len(honIDs))], m: pms[x]})
+				}
 			}
 		}
 		inputs := map[int64]int64{}
@@ -664,6 +674,104 @@ func genClusterByz(t *testing.T, r *rand.Rand, h *History) {
 			}
 		}
 		_ = hon
+	})
+}
+
+// genCorpusStaleReproposal is a corpus history (minimised failing input of a seeded change, kept as regression):
+// n = 4, leader(r) = r mod 4, members 0,1,2 real and honest, member 3 Byzantine and leader of round 3.
+// Round 1: leader 1 proposes A; only 1 sees the PREPARE quorum (prepared (1, A)).  Round 2: leader 2 hears round
+// changes of 0, 2, 3 only and proposes its own B; 0 and 2 prepare (2, B); 2 decides B, its COMMIT/DECIDED are lost.
+// Round 3: the Byzantine leader re-proposes the OLDER value A with a justification made of genuine honest parts only:
+// ROUND-CHANGE(1: pr=1, A) listed FIRST, then ROUND-CHANGE(0: pr=2, B), its own null one, and the round-1 PREPARE
+// quorum for A -- in this and in every other order.  A correct containsJustifiedQrc rejects it in every order (the
+// quorum of round changes holds a higher prepared round than the attached prepares); if it is accepted, 0 and 1
+// decide A while 2 decided B.
+func genCorpusStaleReproposal(t *testing.T, h *History) {
+	h.Kind, h.Nodes, h.Off, h.Fifo, h.Byz = "cluster-byz", 4, 0, 100, []int64{3}
+	inBubble(t, h, func(c *cluster) {
+		p := []*proc{c.ps[0], c.ps[1], c.ps[2]}
+		last := func(q *proc, log *[]M) {
+			*log = append(*log, q.bcasts...)
+		}
+		var out [3][]M
+		find := func(i int, typ, rnd int64) (M, bool) {
+			for k := len(out[i]) - 1; k >= 0; k-- {
+				if out[i][k].T == typ && out[i][k].Rnd == rnd {
+					return out[i][k], true
+				}
+			}
+			return M{}, false
+		}
+		must := func(i int, typ, rnd int64) M {
+			m, ok := find(i, typ, rnd)
+			if !ok {
+				t.Fatalf("corpus C02-m1: node %d did not broadcast type %d for round %d", i, typ, rnd)
+			}
+			return m
+		}
+		flat := func(m M) M { m.J = nil; return m }
+		deliver := func(i int, ms ...M) {
+			for _, m := range ms {
+				if p[i].alive() {
+					c.deliver(p[i], m, "CmpOk")
+					last(p[i], &out[i])
+				}
+			}
+		}
+		timeout := func(i int) {
+			if p[i].canTimeout() {
+				c.timeout(p[i])
+				last(p[i], &out[i])
+			}
+		}
+		for i := range p {
+			c.start(p[i])
+			c.giveInput(p[i], int64(100+i))
+			last(p[i], &out[i])
+		}
+		// round 1
+		pp1 := must(1, 1, 1)
+		for i := range p {
+			deliver(i, pp1)
+		}
+		prep1 := []M{must(0, 2, 1), must(1, 2, 1), must(2, 2, 1)}
+		deliver(1, prep1...)
+		timeout(0)
+		timeout(1)
+		timeout(2)
+		// round 2
+		deliver(2, must(0, 4, 2), must(2, 4, 2), M{T: 4, Src: 3, Rnd: 2})
+		pp2 := must(2, 1, 2)
+		for i := range p {
+			deliver(i, pp2)
+		}
+		prep2 := []M{must(0, 2, 2), must(1, 2, 2), must(2, 2, 2)}
+		deliver(0, prep2...)
+		deliver(2, prep2...)
+		deliver(2, must(0, 3, 2), must(2, 3, 2), M{T: 3, Src: 3, Rnd: 2, Val: pp2.Val})
+		timeout(0)
+		timeout(1)
+		rc3n0, rc3n1 := must(0, 4, 3), must(1, 4, 3)
+		// round 3: the stale re-proposal, matching round change first; then every other order
+		pp3 := M{T: 1, Src: 3, Rnd: 3, Val: pp1.Val, J: []M{flat(rc3n1), flat(rc3n0), {T: 4, Src: 3, Rnd: 3}, flat(prep1[0]), flat(prep1[1]), flat(prep1[2])}}
+		variants := append([]M{pp3}, permsOf(rand.New(rand.NewSource(7)), pp3)...) //nolint:gosec
+		for _, v := range variants {
+			deliver(0, v)
+			deliver(1, v)
+		}
+		if _, ok := find(0, 2, 3); ok {
+			if _, ok1 := find(1, 2, 3); ok1 {
+				prep3 := []M{must(0, 2, 3), must(1, 2, 3), {T: 2, Src: 3, Rnd: 3, Val: pp1.Val}}
+				deliver(0, prep3...)
+				deliver(1, prep3...)
+				if _, okc := find(0, 3, 3); okc {
+					commit3 := []M{must(0, 3, 3), must(1, 3, 3), {T: 3, Src: 3, Rnd: 3, Val: pp1.Val}}
+					deliver(0, commit3...)
+					deliver(1, commit3...)
+				}
+			}
+		}
+		h.Stats["corpus:stale-reproposal"]++
 	})
 }
 
@@ -1095,7 +1203,11 @@ func genAdversarial(t *testing.T, r *rand.Rand, h *History, tmpl int) {
 				if r.Intn(5) == 0 {
 					m, _ = a.defect(m, 1+r.Intn(9))
 				}
-				a.send(m)
+				if len(m.J) > 1 && r.Intn(2) == 0 {
+					a.sendPerms(m)
+				} else {
+					a.send(m)
+				}
 			}
 			// a proposal for nr from its leader
 			pp2 := M{T: 1, Src: a.leader(nr), Rnd: nr, Val: v, J: a.qrc(nr, a.q, rd, v, a.q)}
@@ -1159,7 +1271,11 @@ func genAdversarial(t *testing.T, r *rand.Rand, h *History, tmpl int) {
 				if r.Intn(3) == 0 { // extra unrelated parts: "contains", not "equals"
 					dm.J = append(dm.J, M{T: 2, Src: 0, Rnd: rd, Val: v}, M{T: 3, Src: 1, Rnd: rd + 1, Val: v})
 				}
-				a.send(dm)
+				if k < 5 {
+					a.sendPerms(dm) // all unjust variants, every order; the valid one decides at first delivery
+				} else {
+					a.send(dm)
+				}
 			}
 			a.send(M{T: 4, Src: (self + 1) % n, Rnd: 9})
 		case 4: // round-change driven: f+1 jumps, quorum round changes at the leader, cached justification
@@ -1315,7 +1431,11 @@ func genAdversarial(t *testing.T, r *rand.Rand, h *History, tmpl int) {
 							m.J = append(m.J, M{T: int64(1 + r.Intn(5)), Src: int64(r.Intn(int(n))), Rnd: int64(r.Intn(4)), Val: int64(r.Intn(3)), PR: int64(r.Intn(3)), PV: int64(r.Intn(3))})
 						}
 					}
-					a.send(m)
+					if len(m.J) > 1 && r.Intn(4) == 0 {
+						a.sendPerms(m)
+					} else {
+						a.send(m)
+					}
 				}
 			}
 			stat("soup")
@@ -1369,6 +1489,11 @@ func TestGen(t *testing.T) {
 			}
 		}
 		n = 0
+	} else if n > 0 {
+		// corpus first
+		h := History{ID: 0}
+		genCorpusStaleReproposal(t, &h)
+		hs = append(hs, h)
 	}
 	for len(hs) < n {
 		h := History{ID: len(hs)}
